@@ -204,7 +204,7 @@ def rule_units(ctx, py):
     from .. import pynorm
     f = pynorm.unrolled(py.fn(T + "get_sample_index"))     # a scan over a literal (name, finder) table reads like the if-chain
     body = [st for st in f.body if not (isinstance(st, ast.Expr) and isinstance(st.value, ast.Constant))]
-    first = body[0]
+    first = pyfe.first_touching(f, {"t"}) or body[0]          # the first statement that concerns the query time
     ok = isinstance(first, ast.Assign) and pyfe.src(first.targets[0]) == "t" and \
         pyfe.src(first.value).replace(" ", "") in ("UnitValue(t,self.t.units,convert=True)", "UnitValue(t,self.t.units)")
     ctx.check(ok, R, first, f._qual, pyfe.src(first)[:80], "the query time is converted to the time array's units "
